@@ -17,6 +17,12 @@ negation is proved on a concrete witness which is replayed on the real code (`kn
 namespace C13
 open PyAst SyncProps
 
+/-- decidable view of a replacement node (name, annotation, value) for the written-out instances -/
+def nodeView : Except Err Node → Option (String × Option String × Option String)
+  | .ok (.stmt (.ann t a v)) => some (t, some a, v)
+  | .ok (.arg a) => some (a.name, a.ann, none)
+  | _ => none
+
 /-! ## input unchanged -/
 
 /-- **Input unchanged:** `sync_properties` returns the input module as it was (only the output file is written). -/
@@ -106,6 +112,9 @@ theorem slot_statement (search : Loc) (parent : Option String) (argOk : Bool) (s
   rw [visit, if_pos hh]
   simp [place, placeAsStmt, hr]
 
+/-- non-vacuity: `K.x` hits the attribute `x` of class `K` -/
+example : hit ["K", "x"] (some "K") { repl := .stmt (.ann "b" "int" (some "5")) } (.ann "x" "str" none) = true := by decide
+
 /-- **Slot (function parameter):** in the first not-yet-replaced function located at `search[:-1]`, the first parameter
     of `args` located at the search path is replaced by `asArg` of the replacement node — the input's name and
     annotation for an annotated assignment, the input parameter itself for a parameter — and `replaced` is set. -/
@@ -122,6 +131,12 @@ theorem slot_parameter (search : Loc) (parent : Option String) (st : RState) (na
   simp only []
   rw [e, replaceFirst_findIdx, replaceFirst_snd, hj]
   exact ⟨rfl, rfl⟩
+
+/-- non-vacuity: the hypotheses of `slot_parameter` on `K.m.b` for `def m(self, a, b=1)` in class `K` -/
+example : (some "K").toList ++ ["m"] = (["K", "m", "b"] : Loc).dropLast ∧
+    asArg (.stmt (.ann "x" "int" none)) = some ⟨"x", some "int"⟩ ∧
+    ([⟨"self", none⟩, ⟨"a", none⟩, ⟨"b", none⟩] : List Arg).findIdx? (fun x => ((some "K").toList ++ ["m"]) ++ [x.name] == ["K", "m", "b"]) = some 2 := by
+  decide
 
 /-- what `asArg` is: the input attribute's name and annotation; an input parameter unchanged -/
 theorem slot_parameter_content (t a : String) (v : Option String) (r : Arg) :
@@ -140,6 +155,10 @@ theorem slot_eval_keeps_name (cfg : Config) (search : Loc) (node : Node) (vs : L
     cases hl : it2literal vs with
     | error e => rw [hl] at h; cases h
     | ok lit => rw [hl] at h; cases h; exact ⟨lit, rfl, rfl⟩
+
+/-- non-vacuity: `vals = ('a', 1)` evaluated for the output path `f.b` -/
+example : nodeView (evalNode { inputEval := true, inputParam := "vals", outputParam := "f.b", evalValue := some [.str "a", .raw "1"] } ["f", "b"]) =
+    some ("b", some "Literal['a', 1]", none) := by decide
 
 /-- **Slot (wrap template):** the template changes only the annotation — to the template with the annotation
     substituted — and keeps name and value; a parameter without annotation is left as it is. -/
@@ -161,6 +180,10 @@ theorem slot_wrap (tmpl : String) (node node' : Node) (h : wrapNode tmpl node = 
   · intro n hn; subst hn
     simp only [wrapNode] at h
     cases h; rfl
+
+/-- non-vacuity: `Optional[{output_param}]` around `int` -/
+example : nodeView (wrapNode "Optional[{output_param}]" (.stmt (.ann "x" "int" (some "5")))) = some ("x", some "Optional[int]", some "5") := by
+  decide
 
 /-! ## alignment -/
 
@@ -250,6 +273,14 @@ theorem sync_property_sound (cfg : Config) (input output out : Module) (h : sync
           simp [hpo] at h
           cases h
           exact frame_one_hole _ repl output he hp hrep
+
+/-- non-vacuity: `A.x → K.m.b` with a wrap template succeeds, without phantom write -/
+example :
+    let cfg : Config := { inputParam := "A.x", outputParam := "K.m.b", wrap := some "Optional[{output_param}]" }
+    let input : Module := [.cls "A" [] [] [.ann "x" "int" (some "5")] []]
+    let output : Module := [.cls "K" [] [] [.fn false "m" { args := [⟨"self", none⟩, ⟨"a", none⟩, ⟨"b", none⟩], defaults := ["1"] } [] [] none] []]
+    isOk (syncProperty cfg input output) = true ∧
+    (rewriteAtQuery ["K", "m", "b"] (.stmt (.ann "x" "Optional[int]" (some "5"))) output).2.phantom = false := by decide
 
 /-! ## `find_in_ast`: where the lookup of the input property is right, and where it is not -/
 
